@@ -83,19 +83,23 @@ its activation period, in any order):
 * once all calls have returned, storage holds at most one mapping created from the code, every such mapping was
   returned by a successful activation (a failed activation leaves nothing behind), and the code record names
   the activating client and that mapping (or says "revoked").
-Hypothesis `freshThreads`: the calls have not started yet. -/
+Hypothesis `freshThreads`: the calls have not started yet.
+Hypothesis `leaseOk`: the event list may contain `stall` events (wall-clock time passes while every call is stuck
+in the middle of whatever it is doing: slow storage, a GC pause, queueing behind other activations); the claim key
+is a lease that is neither renewed nor checked again, so the stalls of the history must not add up to its lifetime
+(`Params.lease`, from `codeClaimTTL`; `claim_lease_pin`, `C06_lease_witness`). -/
 theorem C06_core (p : Params) (preC preN : Nat) (ths : List Thread) (evs : List Ev)
-    (hf : freshThreads ths = true) :
+    (hf : freshThreads ths = true) (hl : leaseOk p (init preC preN ths) evs = true) :
     holdsCore p (ths.map callOf) (obs (run .repaired p (init preC preN ths) evs)) = true := by
-  have h := holdsCore_run (p := p) preC preN ths evs hf
+  have h := holdsCore_run (p := p) preC preN ths evs hf hl
   rw [calls_run] at h
   exact h
 
 /-- In particular: however the calls overlap, at most one of them gets a mapping. -/
 theorem C06_at_most_one (p : Params) (preC preN : Nat) (ths : List Thread) (evs : List Ev)
-    (hf : freshThreads ths = true) :
+    (hf : freshThreads ths = true) (hl : leaseOk p (init preC preN ths) evs = true) :
     (obs (run .repaired p (init preC preN ths) evs)).results.countP ORes.isOk ≤ 1 := by
-  have h := C06_core p preC preN ths evs hf
+  have h := C06_core p preC preN ths evs hf hl
   simp only [holdsCore, Bool.and_eq_true, decide_eq_true_eq] at h
   exact h.1.1.1.2
 
@@ -107,16 +111,16 @@ the claim) both lie at instants before which the code was generated and its peri
 that lies before the generation or after the end of the period, or whose read or re-decision falls after the end,
 never creates a mapping.  (Revoked / already used at those instants: `C06_decision_instant`, and `C06_core`.) -/
 theorem C06_valid (p : Params) (preC preN : Nat) (ths : List Thread) (evs : List Ev)
-    (hf : freshThreads ths = true) :
+    (hf : freshThreads ths = true) (hl : leaseOk p (init preC preN ths) evs = true) :
     holdsValid evs (obs (run .repaired p (init preC preN ths) evs)) = true :=
-  holdsValid_run preC preN ths evs hf
+  holdsValid_run preC preN ths evs hf hl
 
 /-- **C06, every clause of the predicate the runner applies to the implementation** (core ∧ valid). -/
 theorem C06_main (p : Params) (preC preN : Nat) (ths : List Thread) (evs : List Ev)
-    (hf : freshThreads ths = true) :
+    (hf : freshThreads ths = true) (hl : leaseOk p (init preC preN ths) evs = true) :
     holds p (ths.map callOf) evs (obs (run .repaired p (init preC preN ths) evs)) = true := by
   simp only [holds, Bool.and_eq_true]
-  exact ⟨C06_core p preC preN ths evs hf, C06_valid p preC preN ths evs hf⟩
+  exact ⟨C06_core p preC preN ths evs hf hl, C06_valid p preC preN ths evs hf hl⟩
 
 /-- The read: the only way an activation gets past it is the translated validity predicate on the record as
 stored at that moment — present, not revoked, not used, period not over — whatever the store looks like. -/
@@ -140,13 +144,13 @@ so far), when an activation passes its re-decision the record *as stored at that
 used and not expired: the claim guarantees that nobody has written the record since the activation read it
 (`TInv.locEq`), so the local copy the code re-checks is the stored record. -/
 theorem C06_decision_instant (p : Params) (preC preN : Nat) (ths : List Thread) (evs : List Ev)
-    (hf : freshThreads ths = true) (i : Nat) (t : Thread)
+    (hf : freshThreads ths = true) (hl : leaseOk p (init preC preN ths) evs = true) (i : Nat) (t : Thread)
     (hi : (run .repaired p (init preC preN ths) evs).ths[i]? = some t) (hpc : t.pc = .checked)
     (hs : t.isMain = true)
     (h : (tstep .repaired p (run .repaired p (init preC preN ths) evs).st i t).2.pc = .decided) :
     let st := (run .repaired p (init preC preN ths) evs).st
     st.code.IsRevoked = false ∧ st.code.IsActivated = false ∧ ¬ (st.code.ActivationExpiresAt < st.now) := by
-  have hinv := inv_run (p := p) evs (inv_init preC preN ths hf)
+  have hinv := inv_run (p := p) evs (inv_init preC preN ths hf) hl
   have hl := (hinv.t i t hi hs).locEq hpc
   intro st
   simp only [tstep, hs, ↓reduceIte] at h
@@ -194,10 +198,10 @@ neither obtained a mapping nor revoked anything.  (A change that makes the look-
 the claim stays keyed by the raw string lets such a request into the read-check-write section under a
 different claim: the implementation then reports `ok` where this theorem says it cannot.) -/
 theorem C06_other_spelling (p : Params) (preC preN : Nat) (ths : List Thread) (evs : List Ev)
-    (hf : freshThreads ths = true) (i : Nat) (t : Thread)
+    (hf : freshThreads ths = true) (hl : leaseOk p (init preC preN ths) evs = true) (i : Nat) (t : Thread)
     (hi : (run .repaired p (init preC preN ths) evs).ths[i]? = some t) (hs : ¬ t.isMain = true) :
     (∀ m, t.res ≠ some (.ok m)) ∧ t.res ≠ some .rok := by
-  have h := (inv_run (p := p) evs (inv_init preC preN ths hf)).o i t hi hs
+  have h := (inv_run (p := p) evs (inv_init preC preN ths hf) hl).o i t hi hs
   exact ⟨h.noOk, h.noRok⟩
 
 /-- **Status polls** (`Thread.poll`: `Service.GetConnectionCode`, no claim) are inside the quantifier of `C06_main`
@@ -248,6 +252,23 @@ example : holdsUniq 2 ["new", "ok", "new", "exhausted", "conflict", "ok"] [1, 1]
 example : holdsUniq 2 ["new", "ok", "dup", "ok"] [2] = false := by decide
 example : holdsUniq 2 ["new", "exhausted"] [0] = false := by decide
 
+/-- **The lease is pinned.**  One stall of the harness lasts 3.5 s; the histories it drives through the real code
+contain up to two of them while a call holds the claim (`maxStalls`).  The claim key must outlive that:
+`codeClaimTTL` is longer than two stalls, i.e. `leaseOf codeClaimTTL` (the `Params.lease` the driver gives the
+model) exceeds `maxStalls`, and every history with at most `maxStalls` stalls satisfies `leaseOk`. -/
+def stallNanos : Nat := 3500000000
+def maxStalls : Nat := 2
+def leaseOf (ttlNanos : Nat) : Nat := (ttlNanos + stallNanos - 1) / stallNanos
+
+theorem claim_lease_pin : maxStalls < leaseOf conncode.codeClaimTTL ∧ maxStalls * stallNanos < conncode.codeClaimTTL := by decide
+
+theorem leaseOk_of_few_stalls (p : Params) (preC preN : Nat) (ths : List Thread) (evs : List Ev)
+    (hp : p.lease = leaseOf conncode.codeClaimTTL) (hs : evs.count .stall ≤ maxStalls) :
+    leaseOk p (init preC preN ths) evs = true := by
+  have := claim_lease_pin.1
+  simp only [leaseOk, init, initStore, decide_eq_true_eq, hp]
+  omega
+
 /-! ## The defect that was repaired: without the claim two overlapping activations both succeed -/
 
 def pW : Params := { tc := 500, ta := 1, max := 50, sticky := false }
@@ -263,6 +284,21 @@ theorem C06_witness :
 /-- The same schedule on the repaired code: one mapping. -/
 example : (obs (run .repaired pW (init 0 0 thsW) evsW)).maps = [(101, 1, 500, 1)] ∧
     (obs (run .repaired pW (init 0 0 thsW) evsW)).results = [.ok (101, 1, 500, 1) true, .err "conflict"] := by decide
+
+/-- The hypothesis is necessary: a claim that lapses while its holder is stuck before the mapping write lets a second
+activation in — two mappings from one code, both calls succeed.  (With a lease of one stall, as if `codeClaimTTL`
+were 3 s; with the real lease the same happens after nine stalls in a row, i.e. a call stuck for more than 30 s.) -/
+theorem C06_lease_witness :
+    holdsCore { pW with lease := 1 } (thsW.map callOf)
+      (obs (run .repaired { pW with lease := 1 } (init 0 0 thsW) ([.create, .th 0, .th 0, .th 0, .stall, .th 1, .th 1, .th 1] ++ drain 2))) = false ∧
+    leaseOk { pW with lease := 1 } (init 0 0 thsW) ([.create, .th 0, .th 0, .th 0, .stall, .th 1, .th 1, .th 1] ++ drain 2) = false ∧
+    holdsCore pW (thsW.map callOf)
+      (obs (run .repaired pW (init 0 0 thsW) ([.create, .th 0, .th 0, .th 0, .stall, .th 1, .th 1, .th 1] ++ drain 2))) = true := by decide
+
+/-- the stalled history under the real lease: the second activation is refused while the first is stuck, one mapping -/
+example : (obs (run .repaired pW (init 0 0 thsW) ([.create, .th 0, .th 0, .th 0, .stall, .th 1, .stall] ++ drain 2))).results =
+    [.ok (101, 1, 500, 1) true, .err "conflict"] ∧
+    leaseOk pW (init 0 0 thsW) ([.create, .th 0, .th 0, .th 0, .stall, .th 1, .stall] ++ drain 2) = true := by decide
 
 /-! ## Non-vacuity -/
 
